@@ -15,7 +15,7 @@ import numpy as np
 from ..kit import cz, czl, cnat, cnatl, cstr, cbool, clist
 
 HDR = ("From Coq Require Import String.\nFrom Coq Require Import List ZArith.\n"
-       "From NV.Lib Require Import RingMat Harness.\nFrom NV.C01 Require Import Model Exec.\nOpen Scope string_scope.\n")
+       "From NV.Lib Require Import RingMat Harness.\nFrom NV.C01 Require Import Model Exec Axes.\nOpen Scope string_scope.\n")
 
 NAMES = list("ijklmnxyztuvw") + ["phase", "freq", "slice"]
 SYSNAMES = ["", "in", "out", "world"]
@@ -463,6 +463,176 @@ def cmaps(ck):
     ck.section("cmaps", chains=len(terms))
 
 
+def my_fix0(aff):
+    """Independent restatement of the documented _fix0 rule (exactly one all-zero row and one all-zero
+    column in the linear part -> 1 at their crossing); used to feed nibabel's io_orientation."""
+    aff = np.asarray(aff)
+    L = aff[:-1, :-1]
+    zr = [k for k in range(L.shape[0]) if not L[k].any()]
+    zc = [j for j in range(L.shape[1]) if not L[:, j].any()]
+    if len(zr) != 1 or len(zc) != 1:
+        return aff
+    out = aff.copy()
+    out[zr[0], zc[0]] = 1
+    return out
+
+
+def rand_axis_aff(rng):
+    """Maps built for axis surgery: a partial matching of inputs to outputs (non-square allowed), optional
+    coupling that breaks orthogonality, zero rows / columns (0 TR), names shared between input and output."""
+    from nipy.core.api import AffineTransform, CoordinateSystem as CS
+    nin, nout = int(rng.integers(1, 6)), int(rng.integers(1, 6))
+    if rng.random() < 0.35:
+        nout = nin
+    M = np.zeros((nout + 1, nin + 1), dtype=np.int64)
+    outs = [int(v) for v in rng.permutation(nout)]
+    ins = [int(v) for v in rng.permutation(nin)]
+    for i, o in list(zip(ins, outs))[:int(rng.integers(0, min(nin, nout) + 1))]:
+        M[o, i] = int(rng.choice([-3, -2, -1, 1, 2, 3])) if rng.random() < 0.9 else 0
+    c = rng.random()
+    if c < 0.3:
+        for _ in range(int(rng.integers(1, 3))):
+            M[int(rng.integers(0, nout)), int(rng.integers(0, nin))] = int(rng.integers(-2, 3))
+    elif c < 0.4:
+        M[:-1, :-1] = rng.integers(-2, 3, (nout, nin))
+    M[:-1, -1] = rng.integers(-4, 5, nout)
+    M[-1, -1] = 1
+    names = [str(v) for v in rng.permutation(NAMES)]
+    dn = names[:nin]
+    rn = names[nin:nin + nout]
+    if rng.random() < 0.35:      # a name shared by an input and an output axis (corresponding or not)
+        rn[int(rng.integers(0, nout))] = dn[int(rng.integers(0, nin))]
+    dt = np.int64 if rng.random() < 0.15 else np.float64
+    return AffineTransform(CS(dn, "in", dt), CS(rn, "out", dt), M.astype(dt))
+
+
+def axes(ck):
+    """io_axis_indices / axmap / _fix0 / drop_io_dim by axis id (negative and out-of-range integers, input
+    names, output names, shared and unknown names) on non-square maps: implementation against the Coq model
+    (vm_compute; nibabel's io_orientation is the only oracle) and against the named-axis semantics."""
+    from nibabel.orientations import io_orientation
+    from nipy.core.reference import coordinate_map as cmod
+    from nipy.core.api import AffineTransform
+    rng = ck.rng("axes")
+    ncases = ck.n(250, 2500)
+    t_io, m_io, t_fx, m_fx, t_dr, m_dr = [], [], [], [], [], []
+
+    def cax(ax):
+        return "(AxInt %s)" % cz(ax) if isinstance(ax, int) else "(AxName %s)" % cstr(ax)
+
+    def kind_of(ax, a):
+        if isinstance(ax, int):
+            n = a.ndims[0]
+            return "int:" + ("negative" if -n <= ax < 0 else "in-range" if 0 <= ax < n else "out-of-range")
+        i, o = ax in a.function_domain.coord_names, ax in a.function_range.coord_names
+        return "name:" + ("shared" if i and o else "input" if i else "output" if o else "unknown")
+
+    for case in range(ncases):
+        a = rand_axis_aff(rng)
+        nin, nout = a.ndims
+        dn, rn = list(a.function_domain.coord_names), list(a.function_range.coord_names)
+        fix0 = bool(rng.random() < 0.6)
+        aff = np.asarray(a.affine)
+        fx = my_fix0(aff)
+        got_fx = cmod._fix0(aff)
+        if not np.array_equal(np.asarray(got_fx), fx):
+            ck.fail("fix0/not-the-documented-rule", "_fix0 does not put a 1 at the crossing of the single zero row and zero column (or changes another matrix)",
+                    {"affine": aff.tolist(), "got": np.asarray(got_fx).tolist(), "expected": fx.tolist()})
+        t_fx.append("fix0_agrees %s %s" % (cmat(aff), cmat(np.asarray(got_fx))))
+        m_fx.append({"affine": aff.tolist()})
+        ornts_f = io_orientation(fx if fix0 else aff)[:, 0]
+        ornts = [None if np.isnan(v) else int(v) for v in ornts_f]
+        cornts = clist([copt(v) for v in ornts])
+        ids = list(range(-nin - 2, nin + 2)) + dn + rn + ["qq"]
+        for ax in [ids[int(k)] for k in rng.choice(len(ids), size=min(len(ids), 4), replace=False)]:
+            ax = int(ax) if isinstance(ax, (int, np.integer)) else str(ax)
+            kd = kind_of(ax, a)
+            meta = {"map": caff(a), "axis_id": ax, "fix0": fix0, "io_orientation": ornts}
+            # ---- io_axis_indices
+            try:
+                got = cmod.io_axis_indices(a, ax, fix0)
+                exp = "(AxOk %s %s)" % (copt(got[0]), copt(got[1]))
+            except cmod.AxisError:
+                got, exp = "AxisError", "AxErrAxis"
+            except KeyError:
+                got, exp = "KeyError", "AxErrKey"
+            except Exception as e:  # noqa
+                ck.fail("io_axis_indices/unexpected-exception", "%s: %s" % (type(e).__name__, e), meta)
+                continue
+            t_io.append("io_axis_agrees %s %s %s %s %s" % (cstrl(dn), cstrl(rn), cornts, cax(ax), exp))
+            m_io.append(dict(meta, got=str(got)))
+            # named-axis semantics, independent of the model: which pair must have been identified
+            if isinstance(got, tuple):
+                want_i = want_o = "?"
+                if isinstance(ax, int):
+                    want_i = ax % nin          # "-2 refers to the second from last input axis"
+                elif ax in dn:
+                    want_i = dn.index(ax)
+                else:
+                    want_o = rn.index(ax)
+                if (want_i != "?" and got[0] != want_i) or (want_o != "?" and got[1] != want_o):
+                    ck.fail("io_axis_indices/wrong-axis/" + kd.replace(":", "-"),
+                            "io_axis_indices identifies another axis than the one the id names", dict(meta, got=list(got)))
+            elif got == "KeyError" and isinstance(ax, int) and -nin <= ax < nin:
+                ck.fail("io_axis_indices/refuses-valid-index", "a valid (possibly negative) input index is refused", meta)
+            # ---- drop_io_dim by the same id
+            try:
+                r = cmod.drop_io_dim(a, ax, fix0)
+                ok = isinstance(r, AffineTransform) and is_int_matrix(r.affine)
+                exp_d = "(Some (Ok %s))" % caff(r) if ok else None
+            except cmod.AxisError:
+                r, exp_d = None, "(Some (Err EAxis))"
+            except KeyError:
+                r, exp_d = None, "None"
+            except Exception as e:  # noqa
+                k = errkind(e)
+                if k is None:
+                    ck.fail("drop_io_dim/unexpected-exception", "%s: %s" % (type(e).__name__, e), meta)
+                    continue
+                r, exp_d = None, "(Some (Err %s))" % k
+            ck.count(("axes", caff(a), ax, fix0), nontrivial=r is not None, bucket="axes:%s:%s" % (kd, "dropped" if r is not None else "refused"))
+            if exp_d is not None:
+                t_dr.append("drop_id_agrees %s %s %s %s %s" % (caff(a), cax(ax), cornts, cbool(fix0), exp_d))
+                m_dr.append(meta)
+            if r is not None and isinstance(got, tuple):
+                gi, go = got
+                keep_in = [n_ for k_, n_ in enumerate(dn) if k_ != gi]
+                keep_out = [n_ for k_, n_ in enumerate(rn) if k_ != go]
+                # the axis the id names must be gone, all others must remain, in order
+                named_in = dn[ax % nin] if isinstance(ax, int) else (ax if ax in dn else None)
+                named_out = ax if (not isinstance(ax, int) and ax in rn) else None
+                rd, rr = list(r.function_domain.coord_names), list(r.function_range.coord_names)
+                if rd != keep_in or rr != keep_out or (named_in is not None and (named_in in rd or len(rd) != nin - 1)) \
+                        or (named_out is not None and (named_out in rr or len(rr) != nout - 1)):
+                    ck.fail("drop_io_dim/wrong-axes-remain/" + kd.replace(":", "-"),
+                            "after drop_io_dim the axis the id names is still there or another axis is gone",
+                            dict(meta, remaining_domain=rd, remaining_range=rr))
+                elif r.ndims[0] > 0 and r.ndims[1] > 0:
+                    x = rng.integers(-5, 6, nin)
+                    if gi is not None and go is None:
+                        x[gi] = 0
+                    xr = np.delete(x, gi) if gi is not None else x
+                    y = np.asarray(call(a, x), dtype=float)
+                    yr = np.delete(y, go) if go is not None else y
+                    if not np.array_equal(np.asarray(call(r, xr), dtype=float), yr):
+                        ck.fail("drop_io_dim/remaining-axes-change", "after dropping an axis the remaining named outputs are no longer the same function of the remaining named inputs",
+                                dict(meta, x=[int(v) for v in x]))
+        if case < 2:
+            ck.sample({"axes_map": caff(a), "io_orientation": ornts})
+    if ck.build.ok:
+        for nm, terms, metas, sig, what in (
+                ("axes_fix0", t_fx, m_fx, "model-vs-impl/fix0", "_fix0: model and implementation disagree"),
+                ("axes_io", t_io, m_io, "model-vs-impl/io_axis_indices", "io_axis_indices: model and implementation disagree on the (input, output) pair an axis id names"),
+                ("axes_drop", t_dr, m_dr, "model-vs-impl/drop_io_dim-by-id", "drop_io_dim(cm, axis_id): model and implementation disagree")):
+            res = ck.coq_bools(HDR, terms, shard=300, name=nm)
+            ck.cov["traces_validated_against_impl"] += len(res)
+            for ok, m in zip(res, metas):
+                if not ok:
+                    ck.fail(sig, what, m)
+                    break
+    ck.section("axes", fix0=len(t_fx), io_axis_indices=len(t_io), drop_by_id=len(t_dr))
+
+
 def run(ck):
     ck.cov["rule"] = ("random programs (length 1..8) over 3..5 random integer AffineTransforms (dims 1..4/5, unimodular/rank-deficient, "
                       "int64 and float64 systems, colliding names), ~22% of steps deliberately ill-typed; a case = one program step; "
@@ -542,5 +712,6 @@ def run(ck):
                 break
     ck.section("programs", programs=len(terms), point_evaluations=len(pterms))
     cmaps(ck)
+    axes(ck)
     ck.trust.append("oracles: numpy.linalg.inv (candidate inverse is an input of the model, which re-checks shape/bottom row); "
-                    "nibabel.io_orientation via io_axis_indices (its (in,out) pair is an input of the model's drop_io_dim)")
+                    "nibabel.io_orientation (its first column is an input of the model's io_axis_indices / drop_by_id; in random programs the (in,out) pair io_axis_indices returns is an input of the model's drop_io_dim)")
